@@ -211,3 +211,4 @@ for M in (1, 2):
     QM(('C01', 'C03', 'C10'), 'e2e.M%d' % M, 'harness/parse_e2e.c', defs=['-DM=%d' % M, '-DCJSON_NESTING_LIMIT=2'], unwind=M + 3,
        unwindset=ML(M + 3, 30) + ['cJSON_Delete:3', 'cJSON_Delete.0:%d' % (M + 2), 'walk:3', 'parse_value:4', 'parse_array:3', 'parse_object:3', 'memcmp.0:5', 'strncmp.0:7'],
        tiers=('thorough',), cost=100, timeout=3600, mem_gb=30, functions=['cJSON_ParseWithLengthOpts', 'parse_value', 'parse_number', 'parse_string', 'parse_array', 'parse_object', 'cJSON_Delete'])
+QM(('C15', 'C16'), 'ptr.index.L4', 'harness/ptr_index.c', defs=['-DL=4'], unwind=8, link=['cJSON.c'], unwindset=ML(8, 20), cost=3, functions=['decode_array_index_from_pointer'])
